@@ -305,7 +305,7 @@ func vfsRealDrawRequest(t *rapid.T, s *vfsStack, w *vfsRealWorld, used []int, bl
 	r.Client = rapid.SampledFrom(w.Blocks[bi]).Draw(t, "client")
 	r.Client16 = r.Client.Is4() && rapid.IntRange(0, 3).Draw(t, "client16") == 0
 
-	r.Name = rapid.SampledFrom([]string{"a.test.", "x.a.test.", "b.test.", "A.Test."}).Draw(t, "name")
+	r.Name = vfsMixCase(t, rapid.SampledFrom([]string{"a.test.", "x.a.test.", "b.test.", "www.example.org."}).Draw(t, "name"))
 	r.QType = rapid.SampledFrom([]uint16{dns.TypeA, dns.TypeA, dns.TypeAAAA}).Draw(t, "qtype")
 	r.ID = uint16(rapid.IntRange(0, 65535).Draw(t, "msgID"))
 	r.DO = rapid.IntRange(0, 5).Draw(t, "do") == 0
